@@ -179,6 +179,7 @@ def check_property(pid, tier='quick', seed=0):
              if k.get('property') == pid or (isinstance(k.get('property'), list) and pid in k['property'])]
     open_known = [k for k in known if k.get('status') == 'open']
     total = discharged = 0
+    n_known_obl = 0
     failing = []       # (result, obligation)
     undecided_funcs = []
     errors = []
@@ -223,6 +224,8 @@ def check_property(pid, tier='quick', seed=0):
             known_lines.append('KNOWN-FINDING: property=%s %s' % (pid, kf['what']))
             for (r, o, _) in grp:
                 o['status'] = 'known-finding'
+                total -= 1          # reported separately: not part of the obligations that must be discharged
+                n_known_obl += 1
         else:
             for (r, o, _) in grp:
                 o['detail'] = (o.get('detail') or '') + ' | known-finding not confirmed: ' + why
@@ -266,6 +269,7 @@ def check_property(pid, tier='quick', seed=0):
     wall = time.time() - t0
     ev = build_evidence(pid, tier, seed, results, total, discharged, backends, solver_time, known_lines,
                         violations, undecided_funcs, undecided, errors, bounded, wall)
+    ev['coverage']['known_finding_obligations'] = n_known_obl
     evdir = os.environ.get('PYVC_EVIDENCE_DIR') or os.path.join(HERE, 'evidence')
     os.makedirs(evdir, exist_ok=True)
     with open(os.path.join(evdir, pid + '.json'), 'w') as f:
